@@ -571,8 +571,30 @@ def check_nice_clear(chk, m, info):
                 else:
                     fact = "other: %s" % fmt(cc)[:50]
         pid = "vmlog_nice path " + "->".join(b.lstrip("%") for b in p.blocks)
-        ok = fact is True and len(calls) == 1 or fact is False and not calls
-        chk.ob("L5.nice", pid, ok, "logs exactly when head < %d (test %s, %d call(s) of vmlog)" % (n, fact, len(calls)), fn.loc, fn.name)
+        # the effect of logging, done inline instead of through vmlog: fmt and the arguments stored into slot `head` (which is
+        # head mod N below N) and head := head + 1 (no fold can be due below N)
+        ev = p.events
+        ls = [(e, line_access(e.ptr, info)) for e in ev if e.kind == "store" and line_access(e.ptr, info)]
+        hs = [e for e in ev if e.kind == "store" and is_head(e.ptr, info)]
+        inline_log = False
+        if ls or hs:
+            want = [0] + [8 + 8 * i for i in range((esz - 8) // 8)]
+            offs = sorted(la[1] for e, la in ls)
+
+            def slot_is_head(x):
+                x = norm_head(strip_casts(mod_n(x, n) if mod_n(x, n) is not None else x), info)
+                x = strip_casts(x)
+                return x[0] == "ld" and is_head(x[1], info)
+            hv = norm_head(strip_casts(hs[-1].val), info) if hs else None
+            inc_ok = hv is not None and hv[0] == "b" and hv[1] == "add" and strip_casts(hv[3])[0] == "ld" and is_head(strip_casts(hv[3])[1], info) \
+                and hv[4][0] == "c" and hv[4][2] == 1
+            inline_log = offs == want and all(slot_is_head(la[0]) for e, la in ls) and len(hs) == 1 and inc_ok and \
+                any(la[1] == 0 and e.val == ("arg", 0) for e, la in ls) and all(ev.index(e) < ev.index(hs[0]) for e, la in ls)
+        logged = (len(calls) == 1 and not ls and not hs) or (not calls and inline_log)
+        silent = not calls and not ls and not hs
+        ok = (fact is True and logged) or (fact is False and silent)
+        chk.ob("L5.nice", pid, ok, "logs exactly when head < %d (test %s; %d call(s) of vmlog, %d line stores, %d head stores%s)"
+               % (n, fact, len(calls), len(ls), len(hs), ", inline effect equals vmlog's below the wrap" if inline_log else ""), fn.loc, fn.name)
     fc = m.fn("mlog_clear")
     chk.note_fn(fc)
     for p in paths.enumerate_paths(fc, m):
